@@ -13,6 +13,7 @@ import (
 	"strings"
 
 	sdb "github.com/alicebob/sqlittle/db"
+	"github.com/alicebob/sqlittle/sql"
 )
 
 var ErrInjected = errors.New("injected I/O error")
@@ -238,3 +239,82 @@ func (m *MemPager) RUnlock() error {
 	return nil
 }
 func (m *MemPager) CheckReservedLock() (bool, error) { return m.Reserved, nil }
+
+func hx(s string) string { return hex.EncodeToString([]byte(strings.ToLower(s))) }
+
+func showIcols(cs []sdb.IndexColumn) string {
+	if len(cs) == 0 {
+		return "-"
+	}
+	var out []string
+	for _, c := range cs {
+		d := "a"
+		if c.SortOrder == sql.Desc {
+			d = "d"
+		}
+		out = append(out, hx(c.Column)+":"+hx(c.Collate)+":"+d)
+	}
+	return strings.Join(out, "+")
+}
+
+// ShowDefault renders a column default the way ShowValue renders stored
+// values; ok is false for a Go type that is not a storable value (bool).
+func ShowDefault(v interface{}) (string, bool) {
+	switch t := v.(type) {
+	case nil, int64, float64, string, []byte:
+		return ShowValue(t), true
+	}
+	return "n", false
+}
+
+// ShowSchema dumps a db.Schema in the format Model/Run.v reads:
+// W;R;COLS;PK;PKNAME;INDEXES.  plain is false when the schema has something
+// the dump cannot carry (a non-storable default).
+func ShowSchema(s *sdb.Schema) (string, bool) {
+	plain := true
+	b2 := func(b bool) string {
+		if b {
+			return "1"
+		}
+		return "0"
+	}
+	cols := "-"
+	if len(s.Columns) > 0 {
+		var cs []string
+		for _, c := range s.Columns {
+			d, ok := ShowDefault(c.Default)
+			plain = plain && ok
+			cs = append(cs, hx(c.Column)+":"+b2(c.Rowid)+":"+d)
+		}
+		cols = strings.Join(cs, ",")
+	}
+	pkname := "-"
+	if s.PrimaryKey != "" {
+		pkname = hx(s.PrimaryKey)
+	}
+	inds := "-"
+	if len(s.Indexes) > 0 {
+		var is []string
+		for _, i := range s.Indexes {
+			is = append(is, hx(i.Index)+"="+showIcols(i.Columns))
+		}
+		inds = strings.Join(is, "/")
+	}
+	return strings.Join([]string{b2(s.WithoutRowid), b2(s.RowidPK), cols, showIcols(s.PK), pkname, inds}, ";"), plain
+}
+
+func Unhex(s string) string {
+	b, _ := hex.DecodeString(s)
+	return string(b)
+}
+
+func UnhexList(s string) []string {
+	if s == "-" {
+		return nil
+	}
+	var out []string
+	for _, p := range strings.Split(s, ",") {
+		out = append(out, Unhex(p))
+	}
+	return out
+}
